@@ -10,7 +10,7 @@ import BluetoeModel.Adv.Model
   Connect half: theorems about `handleReceive` (= advertiser::handle_adv_receive, the only place
   where the link layer decides to enter a connection).  Scan half: the link layer delegates the
   answer to the radio; `validScanBase` is the generic predicate of advertising.hpp (tied to the
-  code), `nrfValidScan` the predicate of the nRF52 ISR (MODELLED ONLY, see Model.lean).
+  code), `nrfValidScan` the predicate of the nRF52 radio ISR (tied to nrf52.hpp by harness/adv/nrf_scan.cpp).
 -/
 namespace BluetoeModel.Adv
 
@@ -157,23 +157,53 @@ theorem scan_valid_iff (pdu : List UInt8) (a : Nat) :
       by_cases ha : a % 2 = 1 <;> by_cases hb : header pdu &&& 0x80 = 0 <;> simp_all
   · simp [hl]
 
-/-- full strength for the nRF52 ISR (modelled only): a properly addressed scan request is answered
-    iff the *scanner's* address (ScanA with the type given by TxAdd) passes the scan filter -/
-def nrf_scan_answered_iff_full : Prop :=
-  ∀ (pdu : List UInt8) (a : Nat) (w : BluetoeModel.WhiteList.WL), validScanBase pdu a = true →
-    (nrfValidScan pdu a w = true ↔ scanIn w (addrAt pdu 0 ((header pdu &&& 0x40) != 0)) = true)
+/-- **C25, scan half, nRF52 / nRF51 radio ISR** (tied to the real nrf52.hpp by harness/adv/nrf_scan.cpp;
+    model = code with fixes/adv-03).  The ISR answers the PDU in its receive buffer iff it is a SCAN_REQ
+    (length octet 12) whose AdvA is the own address and RxAdd the own address type, and the *scanner*
+    (ScanA with the type given by TxAdd of the request) passes the scan filter.
+    (Without the fix the scanner was looked up with the advertiser's own address type: own address random,
+    scan filter on, public scanner aa:aa:aa:aa:aa:aa listed → not answered; the same scanner listed as
+    random → the public one answered.) -/
+theorem nrf_scan_answered_iff (pdu : List UInt8) (a : Nat) (w : BluetoeModel.WhiteList.WL) :
+    nrfValidScan pdu a w = true ↔
+      (header pdu >>> 8 = 12 ∧ header pdu &&& 0x0f = 3
+        ∧ le ((pdu.drop 8).take 6) = a / 2 ∧ ((a % 2 = 1) ↔ (header pdu &&& 0x80 ≠ 0))
+        ∧ scanIn w (addrAt pdu 0 ((header pdu &&& 0x40) != 0)) = true) := by
+  unfold nrfValidScan
+  simp only [Bool.and_eq_true, beq_iff_eq]
+  constructor
+  · rintro ⟨⟨⟨⟨h1, h2⟩, h3⟩, h4⟩, h5⟩
+    refine ⟨h1, h2, h3, ?_, h5⟩
+    by_cases ha : a % 2 = 1 <;> by_cases hb : header pdu &&& 0x80 = 0 <;> simp_all
+  · rintro ⟨h1, h2, h3, h4, h5⟩
+    refine ⟨⟨⟨⟨h1, h2⟩, h3⟩, ?_⟩, h5⟩
+    by_cases ha : a % 2 = 1 <;> by_cases hb : header pdu &&& 0x80 = 0 <;> simp_all
 
-/-- witness (modelled code only): own address random, scanner public and in the white list, scan
-    filter on — the ISR looks up the scanner as a *random* address and does not answer -/
-theorem nrf_scan_filter_witness : ¬ nrf_scan_answered_iff_full := by
-  intro h
-  have := h ([0x83, 12, 0xaa, 0xaa, 0xaa, 0xaa, 0xaa, 0xaa, 0x66, 0x55, 0x44, 0x33, 0x22, 0x11])
-    (2 * 0x112233445566 + 1)
-    { size := 4, entries := [2 * 0xaaaaaaaaaaaa], connFilter := false, scanFilter := true } (by decide)
-  revert this
+/-- the sentence of the property for the radio: a scan request is answered only if it is addressed to
+    the own address and address type and the scanner passes the scan filter; never by the advertising
+    types without scan response (directed, non-connectable) -/
+theorem nrf_answers_only_if (s : St) (pdu : List UInt8) (h : nrfAnswers s pdu = true) :
+    le ((pdu.drop 8).take 6) = s.localAddr / 2 ∧ ((s.localAddr % 2 = 1) ↔ (header pdu &&& 0x80 ≠ 0))
+      ∧ scanIn s.wl (addrAt pdu 0 ((header pdu &&& 0x40) != 0)) = true
+      ∧ (s.cfg.types[s.selected]? = some .undirected ∨ s.cfg.types[s.selected]? = some .scannable) := by
+  unfold nrfAnswers at h
+  split at h
+  · rename_i t ht
+    simp only [Bool.and_eq_true] at h
+    obtain ⟨_, _, h3, h4, h5⟩ := (nrf_scan_answered_iff pdu s.localAddr s.wl).mp h.2
+    refine ⟨h3, h4, h5, ?_⟩
+    cases t <;> simp_all [hasScanResponse]
+  · simp at h
+
+/-- non-vacuity, and the former witness: own address random, scan filter on, the public scanner
+    aa:aa:aa:aa:aa:aa is in the white list: answered (not answered without fixes/adv-03) -/
+example :
+    nrfValidScan ([0x83, 12, 0xaa, 0xaa, 0xaa, 0xaa, 0xaa, 0xaa, 0x66, 0x55, 0x44, 0x33, 0x22, 0x11])
+      (2 * 0x112233445566 + 1)
+      { size := 4, entries := [2 * 0xaaaaaaaaaaaa], connFilter := false, scanFilter := true } = true := by
   decide
 
-/-- partial (modelled code only): with the scan filter off the nRF52 predicate answers the
+/-- relation to the generic predicate of advertising.hpp: with the scan filter off the nRF52 predicate answers the
     properly addressed scan requests whose length octet is exactly 12 (the ISR compares all 8 bits
     of the length octet, advertising.hpp only the lower 6) -/
 theorem nrf_scan_partial (pdu : List UInt8) (a : Nat) (w : BluetoeModel.WhiteList.WL)
